@@ -504,6 +504,28 @@ def mutate_order(ctx: Ctx, failure_clauses: bool = True) -> None:
             data_names.append((role, good_calls[0].args[0].id, w))
     for role, name, w in data_names:
         bs = m.loc.b.get(name, [])
+        for _hop in range(3):
+            # a plain copy of another local (a temporary the inliner or a refactoring introduced): what is written is that local
+            if len(bs) == 1 and bs[0].kind == "assign" and isinstance(bs[0].value, ast.Name) and bs[0].value.id in m.loc.b:
+                name = bs[0].value.id
+                bs = m.loc.b.get(name, [])
+            else:
+                break
+        if len(bs) == 2 and all(x.kind == "assign" for x in bs) and role == "backup":
+            # a constant default followed by the real definition under `if <name>:`, the write under the same never-reassigned name: on every
+            # path that reaches the write the real definition is the one in force
+            consts = [x for x in bs if isinstance(x.value, ast.Constant)]
+            reals = [x for x in bs if not isinstance(x.value, ast.Constant)]
+            if len(consts) == 1 and len(reals) == 1:
+                def guard_of(node_):
+                    for n_ in ast.walk(f.node):
+                        if isinstance(n_, ast.If) and isinstance(n_.test, ast.Name) and not n_.orelse and any(x is node_ for x in n_.body):
+                            return n_.test.id
+                    return None
+                g1, g2 = guard_of(reals[0].node), guard_of(w["with"])
+                stored = {n_.id for n_ in ast.walk(f.node) if isinstance(n_, ast.Name) and isinstance(n_.ctx, ast.Store)}
+                if g1 is not None and g1 == g2 and g1 not in stored and consts[0].node.lineno < reals[0].node.lineno:
+                    bs = reals
         if len(bs) != 1 or bs[0].kind != "assign":
             ctx.bad("R-ORDER", f, f"{role} data '{name}' has a single definition", f"{len(bs)} bindings", node=w["with"])
             continue
@@ -513,7 +535,11 @@ def mutate_order(ctx: Ctx, failure_clauses: bool = True) -> None:
                and isinstance(n.args[0], ast.Name) and n.args[0].id == m.sim_var]
         ctx.expect("R-TABLE", f, f"{role} data is the serialization of the simfile", len(ser) == 1, src(v), f"{name} = {src(v)}", node=bs[0].node)
         if role == "backup":
-            ctx.expect("R-ORDER", f, "backup data is captured before the caller's block runs", cfg.dominates(bn, m.ynode) and bn != m.ynode, "",
+            before = cfg.dominates(bn, m.ynode) and bn != m.ynode
+            if not before and bn != m.ynode:
+                # computed under `if backup_filename:` ahead of the yield: never after it (not reachable from the yield), and the yield follows
+                before = bn not in cfg.reachable(m.ynode, skip_exc=False) and m.ynode in cfg.reachable(bn, skip_exc=True)
+            ctx.expect("R-ORDER", f, "backup data is captured before the caller's block runs", before, "",
                        "the backup text is computed after the yield: it would hold the edited simfile, not the original", node=bs[0].node)
             # conditional form: str(simfile) if backup_filename else ""
             if isinstance(v, ast.IfExp):
